@@ -43,6 +43,7 @@ type Contract struct {
 	Nilable      []string
 	Loops        map[int]*LoopSpec
 	Asserts      []*Clause
+	CrashInv     []*Clause
 	Witness      []*Clause
 	Replay       string
 	Props        []string // extra property ids this function's safety obligations count for
@@ -110,7 +111,7 @@ var keywords = map[string]bool{
 	"func": true, "requires": true, "ensures": true, "modifies": true, "trusted": true,
 	"inline": true, "maypanic": true, "panic_ensures": true, "loop": true, "pure": true,
 	"ghost": true, "axiom": true, "witness": true, "replay": true, "assert": true,
-	"nonilcheck": true, "props": true, "nilable": true,
+	"nonilcheck": true, "props": true, "nilable": true, "crash_inv": true,
 }
 
 type directive struct {
@@ -186,12 +187,13 @@ func (s *Specs) ParseFile(path, pkgPath string) error {
 				}
 				key = strings.TrimSpace(key[:i])
 			}
+			key = qualifyKey(key, pkgPath)
 			if _, dup := s.Contracts[key]; dup {
 				return fmt.Errorf("%s:%d: duplicate contract for %s", d.file, d.line, key)
 			}
 			cur = &Contract{Key: key, ParamNames: names, Loops: map[int]*LoopSpec{}, File: d.file, Line: d.line, Pkg: pkgPath}
 			s.Contracts[key] = cur
-		case "requires", "ensures", "panic_ensures", "assert", "witness":
+		case "requires", "ensures", "panic_ensures", "assert", "witness", "crash_inv":
 			if cur == nil {
 				return fmt.Errorf("%s:%d: %s outside func", d.file, d.line, d.kw)
 			}
@@ -210,6 +212,8 @@ func (s *Specs) ParseFile(path, pkgPath string) error {
 				cur.Asserts = append(cur.Asserts, c)
 			case "witness":
 				cur.Witness = append(cur.Witness, c)
+			case "crash_inv":
+				cur.CrashInv = append(cur.CrashInv, c)
 			}
 		case "modifies":
 			if cur == nil {
@@ -459,4 +463,35 @@ func labelProp(label string) string {
 		return label[:i]
 	}
 	return label
+}
+
+// qualifyKey turns a key written relative to a sub-package's contract file into the global
+// canonical form: "(*segment).at" in package .../raft/log becomes "(*log.segment).at".
+func qualifyKey(key, pkgPath string) string {
+	if pkgPath == ModPath || !strings.HasPrefix(pkgPath, ModPath+"/") {
+		return key
+	}
+	pn := pkgPath[strings.LastIndex(pkgPath, "/")+1:]
+	if strings.HasPrefix(key, "var ") {
+		return key
+	}
+	if strings.HasPrefix(key, "(") {
+		end := strings.Index(key, ")")
+		if end < 0 {
+			return key
+		}
+		recv := key[1:end]
+		star := ""
+		if strings.HasPrefix(recv, "*") {
+			star, recv = "*", recv[1:]
+		}
+		if strings.ContainsAny(recv, "./") {
+			return key
+		}
+		return "(" + star + pn + "." + recv + ")" + key[end+1:]
+	}
+	if strings.ContainsAny(key, "./") {
+		return key
+	}
+	return pn + "." + key
 }
